@@ -1,4 +1,5 @@
 import Xsm.Proofs.ActorsInv
+import Xsm.Model.ActorsDone
 /-!
 # C15 — actor messaging and supervision are exact
 
@@ -55,6 +56,16 @@ same definitions are compiled into `driver_actors` and compared with the real en
   the child is not started when the spawning action returns, an immediate send is dropped;
   `sync_lazy_respawn_previous_not_started`: for the same reason a spawn under the id of a not-yet-started
   child cannot stop it (the repair of F51 applies to started children)
+
+* `completed_child_leaves_running_descendants` (F71, async engine): an INVOKED child machine that reaches its
+  top-level final state (or fails) while it owns a child is dropped from its parent's children map by the managing
+  task WITHOUT being stopped; what it had spawned keeps running, registered and addressable by systemId, and the
+  parent's `stop()` no longer reaches it. About the extension `Xsm/Model/ActorsDone.lean` (actors that end by
+  themselves; `SysD.fixed = false`: the code as it is); the supervision theorems of §5 speak about systems in which
+  an actor leaves `running` only through `stop()` and are untouched. The same witness with the repair
+  (`SysD.fixed = true`: the task stops the child whatever its status) and on the sync engine (whose watcher thread
+  calls `child.stop()`): `completed_child_is_stopped_with_its_descendants`. The check drives the model with the
+  variant the ledger says (`F71` open / fixed).
 
 ## Only validated (differentially / by the monitor), not proved
 * that the model IS the code (tie: 0 disagreements on every explored op sequence, both engines);
@@ -571,6 +582,51 @@ theorem async_stopped_actor_processes_queued_event_fixed :
     (let s1 := spawn none (init .async true []) 0 "k1" (some "a") none true
      ((cmdOp s1 0 "C" acts).get 1).received = []) := by
   decide
+
+/-! ## 7. actors that end by themselves (`Xsm/Model/ActorsDone.lean`) -/
+
+/-- the commands of the witness: the child spawns `g` under the systemId `S2`; the root sends `M1` to `S2` -/
+def doneCmds : List (String × List Action) :=
+  [("C0", [Action.spawn "k2" (some "g") (some "S2") false]), ("C1", [Action.sendTo "S2" "M1" 0 none])]
+
+/-- `r` enters its invoking state (`invoke: {src: k1}`), the invoked child `aid` spawns `g`, then the child's machine
+    ENDS BY ITSELF (`failed`: in the error status instead of a final state) and the watchers' poll interval passes -/
+def doneRun (fl : Flavor) (fixed failed : Bool) (aid : String) : SysD :=
+  runD doneCmds (initD fl true [("r", "k1")] fixed) [.base (.cmd "r" "GOINV"), .base (.cmd aid "C0"), .fin aid failed]
+
+/-- F71 (async engine, the code as it is: `fixed = false`). The invoked child (uid 1) has reached its final state
+    (resp. failed): the managing task has told the parent (`done.invoke.iv` / `error.platform.iv`) and removed the child
+    from the parent's children map — but has NOT stopped it: its status is `done` (`error`), it still lists `g`
+    (uid 2), and `g` is still RUNNING and still registered under its systemId.  The root can still reach `g`
+    through the systemId (`M1` is delivered), and after `stop()` of the root — which stops everything it lists —
+    `g` is STILL running and registered: no `stop()` reaches it any more.  (The run stays inside the modelled
+    fragment.) -/
+theorem completed_child_leaves_running_descendants (failed : Bool) :
+    let d3 := doneRun .async false failed "r:k1:u1"
+    let d5 := runD doneCmds d3 [.base (.cmd "r" "C1"), .base (.stop "r")]
+    d3.status 1 = (if failed then StatusD.error else StatusD.done) ∧
+    (d3.base.get 0).kids = [] ∧ (d3.base.get 0).received = ["GOINV", if failed then "error.platform.iv" else "done.invoke.iv"] ∧
+    (d3.base.get 1).kids = [("r:k1:u1:g", 2)] ∧ d3.status 2 = .running ∧ d3.base.registry = [("S2", 2)] ∧
+    d5.status 0 = .stopped ∧ d5.status 2 = .running ∧ (d5.base.get 2).received = ["M1"] ∧
+    d5.base.registry = [("S2", 2)] ∧ d5.base.oos = false := by
+  cases failed <;> decide
+
+/-- the same witness where the child IS stopped when it ends by itself: the async engine with F71 repaired
+    (`fixed = true`: the managing task stops the child whatever its status) and the sync engine (the watcher thread
+    calls `child.stop()`; there the invoked child is `r:iv`).  The child and `g` are completely stopped, nothing is
+    registered, the parent's map is empty; `M1` is not delivered to anybody (the systemId no longer resolves). -/
+theorem completed_child_is_stopped_with_its_descendants (failed : Bool) :
+    (let d3 := doneRun .async true failed "r:k1:u1"
+     let d4 := runD doneCmds d3 [.base (.cmd "r" "C1")]
+     d3.status 1 = .stopped ∧ d3.status 2 = .stopped ∧ (d3.base.get 0).kids = [] ∧ (d3.base.get 1).kids = [] ∧
+     d3.base.registry = [] ∧ d3.fin = [] ∧ invB d3.base = true ∧
+     d4.base.warns = ["unresolved"] ∧ (d4.base.get 2).received = []) ∧
+    (∀ fixed, let d3 := doneRun .sync fixed failed "r:iv"
+     d3.status 1 = .stopped ∧ d3.status 2 = .stopped ∧ (d3.base.get 0).kids = [] ∧ (d3.base.get 1).kids = [] ∧
+     d3.base.registry = [] ∧ d3.fin = [] ∧ invB d3.base = true) := by
+  refine ⟨?_, fun fixed => ?_⟩
+  · cases failed <;> decide
+  · cases failed <;> cases fixed <;> decide
 
 /-! ## non-vacuity: a concrete three-level system satisfies every hypothesis used above -/
 
